@@ -1,4 +1,5 @@
 """C18 - Command calls get exactly the given arguments; pipes and capture are exact."""
+import os
 import random
 
 import common
@@ -103,6 +104,22 @@ def directed_cases():
         out.append(pipeline.Case("caps-%s-captured" % tag, {"main.tsh": src.encode()},
                                  meta=dict(src=src, expected_out="[" + probe_out(args).rstrip("\n") + "] 0\n", extra_files={"probe_exit0.sh": PROBE}, args=args, skip=False,
                                            expected_err=["E:probe_exit0.sh"])))
+    # the PROGRAM is named by a string too: a path with a blank, a glob character, an apostrophe, a semicolon runs that very file (genuine
+    # defect repaired in round 12: the name was written unquoted and the shell split / expanded it)
+    for i, nm in enumerate(["my probe_exit0.sh", "pro*be_exit0.sh", "a'b_exit0.sh", "x;y_exit0.sh", "sub dir/p r_exit0.sh", "q[1]_exit0.sh"]):
+        for captured in (False, True):
+            args = ["one", "two words", ""]
+            argtxt = ", ".join(gen_strings.go_quote(a) for a in args)
+            lit = gen_strings.go_quote("./" + nm)
+            if captured:
+                src = 'so, se, code := @%s(%s)\nprint("[" + so + "]", code)\n' % (lit, argtxt)
+                exp = "[" + probe_out(args).rstrip("\n") + "] 0\n"
+            else:
+                src = '@%s(%s)\nprint("done")\n' % (lit, argtxt)
+                exp = probe_out(args) + "done\n"
+            out.append(pipeline.Case("pn%d%s" % (i, "c" if captured else "s"), {"main.tsh": src.encode()},
+                                     meta=dict(src=src, expected_out=exp, extra_files={nm: PROBE}, args=args, skip=False,
+                                               expected_err=["E:" + os.path.basename(nm)])))
     src = 'print(@sh("-c", "echo first; exit 3"), @sh("-c", "echo second; exit 4"))\nx1, y1, z1 := @sh("-c", "echo p; exit 5")\nx2, y2, z2 := @sh("-c", "echo q; exit 6")\nprint(x1, z1, x2, z2)\n'
     out.append(pipeline.Case("caps-print-two", {"main.tsh": src.encode()},
                              meta=dict(src=src, expected_out="first  3 second  4\np 5 q 6\n", extra_files={}, args=[], skip=False, expected_err=[])))
@@ -236,6 +253,7 @@ def _exec_chmod(arg):
     try:
         for rel, content in files.items():
             p = os.path.join(d, rel)
+            os.makedirs(os.path.dirname(p), exist_ok=True)
             with open(p, "wb") as fh:
                 fh.write(content)
             os.chmod(p, 0o755)
